@@ -70,6 +70,7 @@ let runners : (string * (z list -> z list)) list = [
   "sol", run_sol;
   "buf", run_buf;
   "fnode", run_fnode;
+  "pull", run_pull;
   "mon", run_mon;
   "mon1", run_mon1;
   "deque", run_deque;
